@@ -67,6 +67,8 @@ def build_jobs(tier):
         texts += F.f_mem((2,), deltas=[0, 32], mixed=True)
         texts += F.f_mem_byte_in_word(deltas=(0, 1, 16, 31, 32, 33))
         texts += F.f_exh(3)
+    texts += F.f_rule_siblings(ops, consts=(0, 1))[:: (4 if tier == "quick" else 1)]
+    texts += F.deep_stack_blocks()
     # MSIZE observes memory expansion: removing a dead load or hash before it is visible
     texts += ["PUSH ffff MLOAD POP MSIZE", "MSIZE PUSH ffff MLOAD POP MSIZE", "DUP1 MLOAD POP MSIZE", "PUSH 20 DUP2 KECCAK256 POP MSIZE",
               "MSIZE DUP2 MLOAD ADD", "DUP2 DUP2 MSTORE MSIZE", "MSIZE MSIZE SUB"]
